@@ -91,3 +91,20 @@ Theorem C02_solve_feasible_history fuel s s' :
     ZERO_UPPERBOUND <= sl /\ (act_of s' k = true -> sl == 0) /\ (ceq (con_of s' k) = true -> sl == 0).
 Proof. exact (fun R H => sat_on_return_history fuel s Solve s' R H). Qed.
 Print Assumptions C02_solve_feasible_history.
+
+(* ---- histories that also change Variable::weight between solves (Vpsc/VpscModelW.v, VpscWeight.v): the active
+   constraints still form a spanning tree of every block and are tight, so the multipliers supported on the active set
+   are unique and the certificate - computed with the CURRENT weights - decides optimality of a re-solve after a
+   weight change exactly as for any other solve (kkt_sufficient quantifies over arbitrary positive weights). *)
+From Adapt Require Import Vpsc.VpscModelW Vpsc.VpscWeight.
+Theorem C02_active_forest_weight_history s : reachable_w s -> forest s /\ act_inv s.
+Proof. exact (active_forest_w s). Qed.
+Print Assumptions C02_active_forest_weight_history.
+
+Theorem C02_solve_feasible_weight_history fuel s s' :
+  reachable_w s -> inc_solve fuel s = Ok s' -> wf_vars (svars s') ->
+  forall k, (k < length (scons s'))%nat -> uns_of s' k = false ->
+    let sl := slackv (svars s') (place_of (final_positions s')) (con_of s' k) in
+    ZERO_UPPERBOUND <= sl /\ (act_of s' k = true -> sl == 0) /\ (ceq (con_of s' k) = true -> sl == 0).
+Proof. exact (fun R H => sat_on_return_w fuel s Solve s' R H). Qed.
+Print Assumptions C02_solve_feasible_weight_history.
